@@ -1,0 +1,26 @@
+//go:build verif
+
+// Package vhook provides scheduling yield points for the external
+// verification harness. With the "verif" build tag a harness can install a
+// function that is called whenever a goroutine reaches a named point.
+package vhook
+
+import "sync/atomic"
+
+var hook atomic.Pointer[func(string)]
+
+// Install sets (or, with nil, removes) the function called by Yield.
+func Install(fn func(site string)) {
+	if fn == nil {
+		hook.Store(nil)
+		return
+	}
+	hook.Store(&fn)
+}
+
+// Yield marks a named scheduling point.
+func Yield(site string) {
+	if fn := hook.Load(); fn != nil {
+		(*fn)(site)
+	}
+}
